@@ -56,6 +56,27 @@ def assign [LT α] [DecidableLT α] (rd : List α → List α → α) (cs xs : L
     List (Nat × α) :=
   xs.map (closest rd cs)
 
+/-- `PredictInplace<ArrayBase<_, Ix1>, usize>`: the index of the closest centroid of one observation -/
+def predict1 [LT α] [DecidableLT α] (rd : List α → List α → α) (cs : List (List α)) (x : List α) :
+    Nat :=
+  (closest rd cs x).1
+
+/-- `Predict::predict` on a matrix (`default_target` = zeros of length `nrows`, then
+`update_cluster_memberships`): one index per row -/
+def predict [LT α] [DecidableLT α] (rd : List α → List α → α) (cs xs : List (List α)) : List Nat :=
+  (assign rd cs xs).map (·.1)
+
+/-- `Transformer::transform` (`update_min_dists`): one reduced distance per row -/
+def transform [LT α] [DecidableLT α] (rd : List α → List α → α) (cs xs : List (List α)) : List α :=
+  (assign rd cs xs).map (·.2)
+
+/-- `PredictInplace<ArrayBase<_, Ix2>, Array1<usize>>::predict_inplace` on a caller-supplied buffer:
+`assert_eq!(observations.nrows(), memberships.len())` (`none` = the panic), then every cell of the
+buffer is overwritten (`Zip::from(rows).and(memberships)`), whatever it held -/
+def predictInplace [LT α] [DecidableLT α] (rd : List α → List α → α) (cs xs : List (List α))
+    (buf : List Nat) : Option (List Nat) :=
+  if xs.length = buf.length then some ((xs.zip buf).map fun q => predict1 rd cs q.1) else none
+
 def vadd [Add α] (a b : List α) : List α := List.zipWith (· + ·) a b
 
 /-- rows of cluster `j`, in observation order -/
